@@ -449,9 +449,29 @@ def big_box_truncations(readers=("cursor", "strict", "lenient")):
                         yield case_line(rd, DEFAULT_MAX, None, total, ex), "big-box-truncation"
 
 
+def big_table_cases(readers=("cursor", "strict")):
+    """chunk-offset tables with thousands of entries (dense), in layouts that need the rewrite (moov after mdat) and that do not; entries
+    near the end and the start carry the boundary values.  Not larger: Spec.entries slices the payload once per entry (a specification,
+    written for reading), so the oracle's cost is quadratic in the entry count - 70000 entries took more than ten minutes"""
+    f = F()
+    md = box(b"mdat", b"abcdefgh" * 4)
+    for w, n in ((4, 5000), (8, 3000)):
+        top = 2**32 - 1 if w == 4 else 2**64 - 1
+        es = [len(f) + 8 + (i % 32) for i in range(n)]
+        for special in (None, (n - 1, top), (0, top), (n // 2, 0)):
+            e2 = list(es)
+            if special:
+                e2[special[0]] = special[1]
+            m = simple_moov([(w, e2), (4, [len(f) + 9])])
+            for lay in (f + md + m, f + m + md, f + box(b"free", b"\0" * 24) + md + m):
+                for rd in readers:
+                    yield case_dense(rd, DEFAULT_MAX, None, lay), "big-table"
+
+
 def standard_stream(run, rewrite_n, mut_n, seq_len, seq_sample=None):
     rng = run.rng
     yield from u64_edge_cases()
+    yield from big_table_cases(("cursor",) if run.tier == "quick" else ("cursor", "strict"))
     yield from big_box_truncations(("cursor", "strict") if run.tier == "quick" else ("cursor", "strict", "lenient"))
     yield from huge_pad_cases()
     yield from displacement_boundary()
